@@ -251,7 +251,25 @@ func (g *gen) stepChallengeResponse() {
 		g.stepGenChallenge()
 		return
 	}
+	// prefer challenges that have not expired (max_challenge_completion_rounds = 6)
+	var fresh []openCh
+	for _, o := range ocs {
+		if o.ch.Round+6 > g.w.Cur.Round {
+			fresh = append(fresh, o)
+		}
+	}
+	late := ""
+	if len(fresh) > 0 && g.chance(88) {
+		ocs = fresh
+	} else if len(fresh) == 0 {
+		late = "-late"
+	}
 	oc := ocs[g.r.Intn(len(ocs))]
+	if oc.ch.Round+6 <= g.w.Cur.Round {
+		late = "-late"
+	} else {
+		late = ""
+	}
 	b := g.byID[oc.ch.BlobberID]
 	if b == nil {
 		return
@@ -282,7 +300,7 @@ func (g *gen) stepChallengeResponse() {
 		from, variant = g.blobbers[g.r.Intn(len(g.blobbers))].key, variant+"-otherblobber"
 	}
 	in := g.challengeResponseInput(&oc.ch, verdicts, int64(g.w.Now), forge)
-	g.do(from, "challenge_response", in, 0, opInfo{variant: variant, target: oc.a.id, tblob: b.key.ID})
+	g.do(from, "challenge_response", in, 0, opInfo{variant: variant + late, target: oc.a.id, tblob: b.key.ID})
 }
 
 func (g *gen) stepUpdate() {
@@ -406,7 +424,7 @@ func (g *gen) stepRead() {
 	case x < 27:
 		ctr, variant = 0, "zero"
 	case x < 30:
-		ctr, variant = last+g.pickI(100000, 4000000000), "huge"
+		ctr, variant = last+g.pickI(1500, 2000), "huge"
 	}
 	signer, sigOK := client, true
 	if g.chance(8) {
